@@ -168,7 +168,8 @@ Raman solver, unidirectional part (gnpy/core/science_utils.py
 Vectors are indexed by frequency, matrices `m[a][t]` by frequency `a` and grid index `t`; the Raman efficiency
 `cr[a][b]` (from `Fiber.cr`, an input of the model) is the gain of `a` per W of `b`.
 The grid is the list of `(z, lumped)` pairs returned by `_create_lumped_losses` (`Gnpy.Fiber.createLumped`).
-Not modelled: `iterative_algorithm` (co- and counter-propagating waves together), spontaneous Raman scattering.
+Not modelled: `iterative_algorithm` (co- and counter-propagating waves together); its result (the power and loss profiles)
+is an input of the spontaneous-scattering model below.
 -/
 namespace Gnpy.Raman
 
@@ -343,6 +344,47 @@ def perturbative (order : Nat) (alpha : List α) (cr : List (List α)) (pin : Li
 /-- the powers at the fibre end (last column of `perturbative`) -/
 def perturbativeEnd (order : Nat) (alpha : List α) (cr : List (List α)) (pin : List α) (grid : List (α × α)) : List α :=
   (perturbGo order alpha cr (grid.length + 1) pin N(1) grid (pin.map (fun x => [x]))).2
+
+/-! ### spontaneous Raman scattering (`RamanSolver.calculate_spontaneous_raman_scattering`)
+Inputs of the model (they come from the stimulated solver and `Fiber.cr`): for every pump its frequency, its power
+profile `P_p(z)` along the result grid and its Raman efficiency onto every channel `cr[i][p]`; for every channel its
+baud rate, frequency and loss profile `loss_i(z)`; the grid `z`; the fibre temperature.  A pump is ONE record: its
+frequency, profile and efficiency column belong together (the SRS result lists co-propagating pumps first, then the
+counter-propagating ones, whatever the order of `fiber.raman_pumps`). -/
+
+/-- `scipy.constants.h` = 6.62607015e-34 J s -/
+def planckH : α := N(662607015) / N(1000000000000000000000000000000000000000000)
+/-- `scipy.constants.k` = 1.380649e-23 J/K -/
+def boltzK : α := N(1380649) / N(100000000000000000000000000000)
+
+/-- `numpy.trapz(y, z)` -/
+def trapz : List α → List α → α
+  | y0 :: y1 :: ys, z0 :: z1 :: zs => (z1 - z0) * ((y1 + y0) / N(2)) + trapz (y1 :: ys) (z1 :: zs)
+  | _, _ => N(0)
+
+def vdiv : List α → List α → List α
+  | x :: xs, y :: ys => (x / y) :: vdiv xs ys
+  | _, _ => []
+
+/-- `eta = - 1 / (1 - exp(h * df / (k * T)))` -/
+def etaBE (df temp : α) : α := (-N(1)) / (N(1) - Transc.exp (planckH * df / (boltzK * temp)))
+
+/-- one pump as seen by one channel: (pump frequency, efficiency `cr[i][p]`, pump power profile) -/
+structure PumpAt (α : Type) where
+  f : α
+  cr : α
+  profile : List α
+
+/-- contribution of one pump to the ASE of the channel `(baud, f, loss profile)`:
+`2 * h * baud * f * (1 + eta) * cr * (df > 0) * trapz(P_p / loss_i, z)` -/
+def sprsTerm (temp baud f : α) (loss z : List α) (p : PumpAt α) : α :=
+  let df := p.f - f
+  let mask : α := if N(0) < df then N(1) else N(0)
+  N(2) * planckH * baud * f * (N(1) + etaBE df temp) * p.cr * mask * trapz (vdiv p.profile loss) z
+
+/-- ASE generated on one channel by all the pumps -/
+def sprsChannel (temp baud f : α) (loss z : List α) (pumps : List (PumpAt α)) : α :=
+  sumL (pumps.map (sprsTerm temp baud f loss z))
 
 /-- transpose of the Euler columns: rows = frequencies -/
 def column (m : List (List α)) (k : Nat) : List α := m.filterMap (fun r => r[k]?)
